@@ -70,6 +70,11 @@ def spec_switched(v, S, P):
     return None
 
 
+import _precalls as _PRE  # noqa: E402
+_PRE_SHARE_SMALL = 0.02     # per call site, exhaustive part (~20 000 short series, up to 12 call sites each)
+_PRE_SHARE = 0.3            # per call site, random / corpus part
+
+
 def is_subseq(small, big):
     it = iter(big)
     return all(x in it for x in small)
@@ -95,12 +100,24 @@ def run(ctx):
         ctx.count_case(tuple(v), len(v) >= 3 and nonconst,
                        sample={'fn': 'zero crossings / switched peaks', 'values': list(v)} if ctx.evaluations % 20011 == 0 else None)
         z0 = {}
+        # round 7: before a share of the calls, public functions of the module are called on the same content with non-default options,
+        # positionally / by keyword, results ignored (_precalls.py); `pre` lists them for the failing input
+        share = _PRE_SHARE_SMALL if len(v) <= 8 else _PRE_SHARE
         for keep in (False, True):
             for tol in tol_list:
-                res = call_impl(pc.get_zero_crossings_array_indices, arr, keep_adj_zeros=keep, tol=float(tol))
+                pre = {}
+                _PRE.before(ctx, _PRE.pc_entries, arr, pre, share=share)
+                # the options by keyword, positionally or (defaults) left out: one of the documented ways of making this call
+                how = _PRE.rng_of(ctx).choice(['keyword', 'keyword', 'positional', 'minimal'])
+                if how == 'positional':
+                    res = call_impl(pc.get_zero_crossings_array_indices, arr, keep, float(tol))
+                elif how == 'minimal':
+                    res = call_impl(pc.get_zero_crossings_array_indices, arr, **({'keep_adj_zeros': keep} if keep else {}), **({'tol': float(tol)} if tol != 0 else {}))
+                else:
+                    res = call_impl(pc.get_zero_crossings_array_indices, arr, keep_adj_zeros=keep, tol=float(tol))
                 ctx.corr('get_zero_crossings_array_indices', f"zc|{w_bool(keep)}|{w_rat(tol)}|{w_rats(v)}", res,
                          lambda outs, val: cmp_exact([int(x) for x in val], p_ints(outs[0])),
-                         inputs={'values': list(v), 'keep_adj_zeros': keep, 'tol': float(tol)})
+                         inputs={'values': list(v), 'keep_adj_zeros': keep, 'tol': float(tol), 'options passed': how, **pre})
                 if res[0] != 'ok':
                     continue
                 z = [int(x) for x in res[1]]
@@ -115,10 +132,18 @@ def run(ctx):
         s0 = None
         P = None
         for tol in tol_list:
-            res = call_impl(pc.get_switched_peak_array_indices, arr, tol=float(tol))
+            pre = {}
+            _PRE.before(ctx, _PRE.pc_entries, arr, pre, share=share)
+            how = _PRE.rng_of(ctx).choice(['keyword', 'keyword', 'positional', 'minimal'])
+            if how == 'positional':
+                res = call_impl(pc.get_switched_peak_array_indices, arr, float(tol))
+            elif how == 'minimal' and tol == 0:
+                res = call_impl(pc.get_switched_peak_array_indices, arr)
+            else:
+                res = call_impl(pc.get_switched_peak_array_indices, arr, tol=float(tol))
             ctx.corr('get_switched_peak_array_indices', f"switched|{w_rat(tol)}|{w_rats(v)}", res,
                      lambda outs, val: cmp_exact([int(x) for x in val], p_ints(outs[0])),
-                     inputs={'values': list(v), 'tol': float(tol)})
+                     inputs={'values': list(v), 'tol': float(tol), 'options passed': how, **pre})
             if res[0] != 'ok' or (not nonconst and tol != 0):
                 continue
             # constant series are series too (C12 says "for every series"): the tol = 0 clauses are evaluated on them as well
@@ -361,14 +386,18 @@ def _x2_wrappers(ctx, cur):
         cur.update(inputs)
         cls = eqsig.AccSignal if it % 2 else eqsig.Signal
         asig = ctx.aged(cls, v, dt) if it % 5 == 0 else _light_history(ctx, cls, v, dt)
+        _PRE.before(ctx, _PRE.pc_entries, v, inputs, share=_PRE_SHARE)      # round 7: preceding public calls on the same content
         z_ref = pc.get_zero_crossings_array_indices(v)
+        _PRE.before(ctx, _PRE.pc_entries, v, inputs, share=_PRE_SHARE)
         rz = call_impl(pc.get_zero_crossings_indices, asig)
         ctx.oracle('C12.a get_zero_crossings_indices(asig) == get_zero_crossings_array_indices(asig.values) == {0} + first zeros + first samples after a sign change',
                    rz[0] == 'ok' and _same_idx(rz[1], z_ref) and _same_idx(rz[1], np_spec_zc(v, False)), inputs, detail={'wrapper': rz[1], 'array-level': z_ref})
         if len(set(v.tolist())) > 1:
+            _PRE.before(ctx, _PRE.pc_entries, v, inputs, share=_PRE_SHARE)
             s_ref = pc.get_switched_peak_array_indices(v)
             P = pc.get_peak_array_indices(v)
             bad = np_spec_switched(v, s_ref, P)
+            _PRE.before(ctx, _PRE.pc_entries, v, inputs, share=_PRE_SHARE)
             rs = call_impl(pc.get_switched_peak_indices, asig)
             ctx.oracle('C12.c-e get_switched_peak_indices(asig) == get_switched_peak_array_indices(asig.values)' + (' [array-level: ' + bad + ']' if bad else ''),
                        rs[0] == 'ok' and _same_idx(rs[1], s_ref) and bad is None, inputs, detail={'wrapper': rs[1], 'array-level': s_ref})
